@@ -322,6 +322,11 @@ def call(ev, name, args, kwargs, lineno, env):
         if is_array(a):
             return reduce_extreme(ev, name, a)
         raise Unsupported("np.%s" % name)
+    if name in ("nanmax", "nanmin"):
+        a = args[0]
+        if is_array(a) and getattr(a, "kind", "") == "F" and not isinstance(a, Comp):
+            return reduce_extreme_nan(ev, name[3:], a)
+        raise Unsupported("np.%s of a non-IEEE array (line %d)" % (name, lineno))
     if name == "iterable":
         return is_array(args[0]) or isinstance(args[0], (list, tuple))
     if name == "shape":
@@ -526,6 +531,23 @@ def reduce_extreme(ev, op, a):
     cmpop = "<=" if op == "max" else ">="
     ev.path.facts.append(z3.ForAll([j], z3.Implies(rng(j), B(compare(cmpop, af(j), m)))))
     ev.path.facts.append(z3.And(rng(l0), B(compare("==", af(l0), m))))
+    return m
+
+
+def reduce_extreme_nan(ev, op, a):
+    """np.nanmax / np.nanmin (A4): NaN entries are ignored; the result is NaN only if every entry is NaN:
+       forall k. not isNaN(a[k]) -> (not isNaN(m) and a[k] <= m);  witness l0: isNaN(m) -> isNaN(a[l0]),
+       not isNaN(m) -> a[l0] == m"""
+    ev.safety("index", compare(">=", a.n, 1), None)
+    af = a.f
+    rng = lambda v: z3.And(v >= 0, B(compare("<", v, a.n)))
+    m = fresh("fpnanext_" + op, V.FP64)
+    k, l0 = fresh("j"), fresh("wit")
+    cmpf = z3.fpLEQ if op == "max" else z3.fpGEQ
+    ev.path.facts.append(z3.ForAll([k], z3.Implies(z3.And(rng(k), z3.Not(z3.fpIsNaN(af(k)))),
+                                                   z3.And(z3.Not(z3.fpIsNaN(m)), cmpf(af(k), m)))))
+    ev.path.facts.append(z3.And(rng(l0), z3.Implies(z3.fpIsNaN(m), z3.fpIsNaN(af(l0))),
+                                z3.Implies(z3.Not(z3.fpIsNaN(m)), z3.fpEQ(af(l0), m))))
     return m
 
 
